@@ -25,7 +25,7 @@ import time
 VERIF = os.path.dirname(os.path.abspath(__file__))
 sys.path.insert(0, VERIF)
 from vx import extract, verus_run, props  # noqa: E402
-from vx import kani_run  # noqa: E402
+from vx import kani_run, native_run  # noqa: E402
 
 BUILD = os.path.join(VERIF, 'build')
 CACHE = os.path.join(BUILD, 'cache')
@@ -332,6 +332,20 @@ def main():
                 else:
                     undecided.append('kani harness %s: %s' % (h['name'], h['status']))
 
+    # ------------------------------------------------------------------ bounded native stand-ins
+    bounded_runs = []
+    if P.get('native'):
+        try:
+            for nr in native_run.run_tests(P['native']):
+                checker_cmds.append(nr['cmd'])
+                bounded_runs.append('BOUNDED (not counted as proved) %s: %s; %d cases; functions %s; reason: %s' % (nr['id'], nr['bound'], nr['evaluations'], ', '.join(nr['functions']), nr['why']))
+                functions_under_contract += [dict(unit='native-bounded:' + nr['id'], function=fn, bounded=True) for fn in nr['functions']]
+                if not nr['passed']:
+                    violations.append(dict(engine='native-bounded', test=nr['id'], functions=nr['functions'], cmd=nr['cmd'], verifier_output=nr['output_tail'],
+                                           playback=dict(reproduced=True, native_cmd=nr['cmd'])))
+        except native_run.NativeUndecided as e:
+            undecided.append(str(e))
+
     wall = time.time() - t0
     # ------------------------------------------------------------------ evidence
     trusted_dedup = []
@@ -349,7 +363,7 @@ def main():
             backends=per_backend,
             solver_time_s=round(per_backend['verus_smt_ms'] / 1000.0 + per_backend['kani_wall_s'], 3),
             extraction_dropped=dropped[:400],
-            bounded_parts=P.get('bounded', []),
+            bounded_parts=list(P.get('bounded', [])) + bounded_runs + [x for x in trusted_dedup if x.startswith('BOUNDED')],
             canary_functions_failing_as_required=canary_ok,
             known_findings=[k['what'] for k in known_hits],
             known_failing_obligations_excluded_from_counts=known_failing,
@@ -379,6 +393,8 @@ def main():
                 suffix = ' no-failing-input-found'
             if v['engine'] == 'verus':
                 print('failed obligation: %s::%s  %s  clause: %s' % (v['unit'], v['function'], v['obligation']['kind'], (v['obligation']['clause'] or v['obligation']['call_site'] or '')[:200]))
+            elif v['engine'] == 'native-bounded':
+                print('failed bounded stand-in (concrete failing input on the real code): %s' % v['test'])
             else:
                 print('failed harness: %s  checks: %s' % (v['harness'], '; '.join(v['failed_checks'])[:300]))
             print('VIOLATION property=%s replay=%s%s' % (pid, path, suffix))
